@@ -8,6 +8,9 @@
  *   VS_DELAYS="i:c,j:c,..."  at decision point i take alternative c (0 = canonical), canonical elsewhere
  *   VS_TRACE=<file>          one byte pair (enabled count, chosen index) per decision point + text summary
  *   VS_HORIZON=<n>           maximum number of decision points (overrun = exit 5)
+ *   VS_STALL="p,q,..."       at decision point p the thread the canonical order would run is stalled for the rest of the
+ *                            execution: it only runs when every other thread is blocked, finished or has spun a full round
+ *                            without progress ("this thread is arbitrarily slow from here on"; a priority change point)
  *   VS_POLICY=0|1            0: canonical order ascending thread ids from the running thread, 1: descending
  *   VS_UNLOCK_YIELD=1        mutex release is a scheduling point too
  * Mode 2 (closed harness, explicit state): vs_explore() enumerates every interleaving; executions are cut at
@@ -69,6 +72,7 @@ typedef struct VThread {
     void *(*fn)(void *);
     void    *ctx;
     int      depri;     /* deprioritised (spinner / sleeper): goes last in canonical order */
+    int      stalled;   /* VS_STALL: runs only when nobody else can make progress */
     void    *sp;        /* stack pointer at the parked yield (explicit-state mode) */
     void    *stack_top; /* frame of the trampoline / pool loop */
     void    *spin_pc;   /* caller of the last spin hook (diagnostics) */
@@ -90,6 +94,8 @@ static long npoints, nsteps;
 static long horizon = 2000000;
 static int  policy, max_enabled, verbose, unlock_yield;
 static long spin_streak;
+static long stall_point[MAXDEV];
+static int  nstall, idle_spins;
 static uint64_t trace_hash;
 static FILE *trace_f;
 void (*vs_on_deadlock)(void);
@@ -327,23 +333,35 @@ static void deadlock(const char *kind) {
 /* Picks the next thread to run.  Called by the running thread with its pending op published. */
 static int pick_next(void) {
     int order[MAXT], n = 0, nq = 0, quiescers[MAXT];
+    int start, restall = 0;
+again:
+    n = 0; nq = 0;
     /* canonical order: running thread first (if enabled and not deprioritised), then cyclic by id; deprioritised last */
-    int start = cur < 0 ? 0 : cur;
-    for (int pass = 0; pass < 2; pass++)
+    start = cur < 0 ? 0 : cur;
+    int nspin = 0;
+    for (int i = 0; i < nthr; i++) if (is_enabled(&thr[i]) && thr[i].depri && !thr[i].stalled && thr[i].op != OP_QUIESCE) nspin++;
+    /* passes: 0 normal, 1 spinners, 2 stalled; once every spinner had a turn without anybody progressing the stalled go before the spinners */
+    for (int pp = 0; pp < 3; pp++) {
+        int pass = pp == 0 ? 0 : (idle_spins >= nspin ? (pp == 1 ? 2 : 1) : pp);
         for (int k = 0; k < nthr; k++) {
             /* deprioritised threads (spinners): the one that just yielded goes last, so that spinners take turns */
             int kk = pass == 1 ? (k + 1) % nthr : k;
             int i = policy == 1 ? (start + nthr - kk) % nthr : (start + kk) % nthr;
             VThread *t = &thr[i];
             if (!is_enabled(t)) continue;
-            if (t->op == OP_QUIESCE) { if (pass == 0) quiescers[nq++] = i; continue; }
-            if ((t->depri != 0) != (pass == 1)) continue;
+            if (t->op == OP_QUIESCE) { if (pp == 0) quiescers[nq++] = i; continue; }
+            int cls = t->stalled ? 2 : (t->depri ? 1 : 0);
+            if (cls != pass) continue;
             order[n++] = i;
         }
+    }
     if (n == 0) {
         if (nq == 0) return -1;
         for (int k = 0; k < nq; k++) order[n++] = quiescers[k];
     }
+    if (n > 1 && !ex_on && !restall)
+        for (int d = 0; d < nstall; d++)
+            if (stall_point[d] == npoints && !thr[order[0]].stalled) { thr[order[0]].stalled = 1; restall = 1; goto again; }
     int choice = 0;
     if (n > 1 && ex_on) {
         choice = ex_decide(n);
@@ -369,8 +387,9 @@ static int pick_next(void) {
     nsteps++;
     if (verbose > 1 && n == 1) { VThread *c = &thr[order[0]]; fprintf(stderr, "      (only) t%d %s obj=%d\n", order[0], opname[c->op], obj_id(c)); }
     if (thr[order[choice]].op == OP_SPIN) {
+        idle_spins++;
         if (++spin_streak > 300000) deadlock("livelock");
-    } else spin_streak = 0;
+    } else spin_streak = 0, idle_spins = 0;
     return order[choice];
 }
 
@@ -504,6 +523,14 @@ void vs_init(void) {
             dev_point[ndev] = strtol(p, &p, 10);
             if (*p == ':') { p++; dev_choice[ndev] = (int)strtol(p, &p, 10); } else dev_choice[ndev] = 1;
             ndev++;
+            if (*p == ',') p++; else break;
+        }
+        free(s);
+    }
+    if ((e = getenv("VS_STALL")) && *e) {
+        char *s = strdup(e), *p = s;
+        while (p && *p && nstall < MAXDEV) {
+            stall_point[nstall++] = strtol(p, &p, 10);
             if (*p == ',') p++; else break;
         }
         free(s);
